@@ -12,7 +12,7 @@ META = {
                    "zero-progress edge or the mismatch edge; (C08.4) the Rewind receives the same io and all consumed bytes; (C08.5) Rewind::poll_read copies and consumes the same "
                    "n = min(prefix.len(), remaining), stores a non-empty remainder back, and reads the inner stream only when no prefix remains; its write side forwards (E-FWD); "
                    "(C08.6) both hyper builders are given the Rewind, not the raw io."
-                   " As built now: C08.5 is the decision table of Rewind::poll_read (rewindtable.py: prefix window x room in the caller's cursor -> which window is copied, what is left, whether the live stream is read), plus rules on the crate's own two cursor helpers and the forwarding of the write half.",
+                   " As built now: C08.5 is the decision table of Rewind::poll_read (rewindtable.py: prefix window x room in the caller's cursor -> which window is copied, what is left, whether the live stream is read), the crate's cursor helpers spliced in and hyper's cursor itself the primitive, plus rules on those helpers and the forwarding of the write half.",
     "trusted_base": ["rustc type/borrow checker", "hyper::rt::ReadBuf / ReadBufCursor semantics", "bytes::Buf::advance"],
     "assumptions": ["the two unsafe blocks of rewind.rs (remaining / put_slice) are as reviewed; unsafe blocks are pinned by count under C18"],
     "undecided": "equality of behaviour with single-protocol servers over all byte streams (needs execution)",
